@@ -18,6 +18,13 @@ fn list_state_checks(sim: &Sim<SList>, r: usize, stats: &mut Stats) -> Result<bo
     let st = &sim.reps[r].st;
     let base = list_seq(st);
     let len = base.len();
+    // "behaves exactly like a Vec": every read entry point (len, is_empty, iter, iter_entries, position, position_entry, get,
+    // first / last (+ _entry), read_into) agrees with read() in this state
+    if let Some(a) = SList::observe(st).get("api").and_then(|a| a.as_array()) {
+        if let Some(first) = a.first() {
+            return Err(Fail::new(format!("r{r}: List read API disagrees with read() = {base:?}: {first}")));
+        }
+    }
     let actor = sim.reps[r].actor.unwrap_or(99);
     for i in 0..=len + 2 {
         let op = st.insert_index(i, 4_000_000 + i as u32, actor);
@@ -104,6 +111,11 @@ fn glist_state_checks(sim: &Sim<SGList>, r: usize, stats: &mut Stats) -> Result<
     let st = &sim.reps[r].st;
     let base = glist_seq(st);
     let len = base.len();
+    if let Some(a) = SGList::observe(st).get("api").and_then(|a| a.as_array()) {
+        if let Some(first) = a.first() {
+            return Err(Fail::new(format!("r{r}: GList read API disagrees with read() = {base:?}: {first}")));
+        }
+    }
     let apply = |op: crdts::glist::Op<u32>| {
         let mut c = st.clone();
         c.apply(op);
@@ -178,7 +190,7 @@ pub fn property() -> Property {
     jobs.push(mk_job("GList<u32>/index sweep on merged concurrent states", 36000, 100_000, pc, Ctx::new(Disc::Any), check_glist_index).floor("nontrivial", 0.2).boxed());
     Property {
         id: "C13",
-        rule: "Reachable List/GList states built by concurrent histories (equal-rational siblings, forked identifier paths, remote ops, GList merges); on the affected replica every few steps and on every replica at the end: List insert_index(i,x) for EVERY i in 0..=len+2 (clamped), append, delete_index(i) for every i<len+2 (None beyond len); GList insert(i,x) for every i in 0..=len, insert_after(Some(id)) and insert_before(Some(id)) for every id present; each returned op is applied to a clone and the read is compared with a Vec model (x at min(i,len); exactly the i-th element gone; immediately after/before the identified element; everything else in the same relative order). Non-trivial = the probed state contains two adjacent identifiers with the same leading rational (concurrently inserted neighbours); distinct = distinct Plan hash.".into(),
+        rule: "Reachable List/GList states built by concurrent histories (equal-rational siblings, forked identifier paths, remote ops, GList merges); on the affected replica every few steps and on every replica at the end: every read entry point (len, is_empty, iter, iter_entries, position, position_entry, get, first/last, first_entry/last_entry, read_into, Identifier::value/into_value) agrees with read(); List insert_index(i,x) for EVERY i in 0..=len+2 (clamped), append, delete_index(i) for every i<len+2 (None beyond len); GList insert(i,x) for every i in 0..=len, insert_after(Some(id)) and insert_before(Some(id)) for every id present; each returned op is applied to a clone and the read is compared with a Vec model (x at min(i,len); exactly the i-th element gone; immediately after/before the identified element; everything else in the same relative order). Non-trivial = the probed state contains two adjacent identifiers with the same leading rational (concurrently inserted neighbours); distinct = distinct Plan hash.".into(),
         assumptions: vec!["GList::insert is only called with idx <= len (documented precondition: it asserts)".into()],
         jobs,
     }
